@@ -10,6 +10,9 @@ type GroupedDataFrame struct {
 	KeyOrder []any // This is to preserve the order of the data
 	Key      string
 	Err      error
+	// keyIsList is set when the frame was grouped by a list of columns: Key is then "" and
+	// names no column, so no column may be left out of the aggregations because of it
+	keyIsList bool
 }
 
 // The Groupby method is a powerful method used for data aggregation, it involves a DataFrame to be split into groups
@@ -26,6 +29,7 @@ func (df *DataFrame) Groupby(key any) *GroupedDataFrame {
 	groups := make(map[any][]map[string]any) // GroupKey: { row[key] : value} where key is the column name
 	var err error
 	keyName := ""
+	keyIsList := false
 	keyOrder := []any{}
 
 	switch key := key.(type) {
@@ -37,6 +41,7 @@ func (df *DataFrame) Groupby(key any) *GroupedDataFrame {
 		}
 
 	case []string:
+		keyIsList = true
 		groups, keyOrder, err = groupByList(df, key, groups)
 		if err != nil {
 			return &GroupedDataFrame{Err: fmt.Errorf("unable to group by string: %v", err)}
@@ -52,7 +57,7 @@ func (df *DataFrame) Groupby(key any) *GroupedDataFrame {
 		return &GroupedDataFrame{Err: fmt.Errorf("unsupported groupby key type: %T", key)}
 	}
 
-	return &GroupedDataFrame{Groups: groups, Key: keyName, KeyOrder: keyOrder, Err: nil}
+	return &GroupedDataFrame{Groups: groups, Key: keyName, KeyOrder: keyOrder, Err: nil, keyIsList: keyIsList}
 }
 
 func groupByString(df *DataFrame, colName string, groups map[any][]map[string]any) (map[any][]map[string]any, []any, error) {
@@ -212,7 +217,7 @@ func (gdf *GroupedDataFrame) GetAllColumnNames() []string {
 	for _, groupVal := range gdf.Groups {
 		for _, rowValue := range groupVal {
 			for key := range rowValue {
-				if key == gdf.Key {
+				if !gdf.keyIsList && key == gdf.Key {
 					continue
 				}
 
